@@ -228,6 +228,27 @@ func answer(q string) (res string) {
 			}
 			loc = l
 		}
+		// the documented house layouts (fn.md / handle.go descriptions), tried directly with Go's
+		// time package when the zone needs no table (default or named zone)
+		if tz == "" || named {
+			l := time.Local
+			if named {
+				l = loc
+			}
+			for _, hl := range []struct {
+				f    string
+				year bool
+			}{{"02/Jan/2006:15:04:05 -0700", false}, {"02 Jan 2006 15:04:05.000", false}, {"02 Jan 15:04:05.000 2006", true}, {"060102 15:04:05", false},
+				{"2006/01/02 - 15:04:05", false}, {"Mon Jan 2 15:04:05.000000 2006", false}, {"2006-01-02 15:04:05.000 UTC", false}} {
+				v := val
+				if hl.year {
+					v = fmt.Sprintf("%s %d", val, time.Now().Year())
+				}
+				if tm, perr := time.ParseInLocation(hl.f, v, l); perr == nil && tm.UnixNano() > 0 {
+					return okHex(strconv.FormatInt(tm.UnixNano(), 10))
+				}
+			}
+		}
 		n, err := funcs.TimestampHandle(val, tz)
 		if err != nil {
 			return "err:" + hex.EncodeToString([]byte(err.Error()))
